@@ -157,8 +157,10 @@ def fix(
     if not fix_even_unparsable:
         # If fix_even_unparsable wasn't set, check for templating or parse
         # errors and suppress fixing if there were any.
-        _, num_filtered_errors = result.count_tmp_prs_errors()
-        if num_filtered_errors > 0:
+        # NOTE: Use the unfiltered count, so that errors which are ignored or
+        # noqa'd still suppress fixing (consistent with the CLI).
+        total_errors, _ = result.count_tmp_prs_errors()
+        if total_errors > 0:
             should_fix = False
     if should_fix:
         sql = result.paths[0].files[0].fix_string()[0]
